@@ -1,5 +1,5 @@
 # Shared driver for the scheduler-based checks C07 (threaded decoder) and C08 (threaded encoder).
-import json, os, re, subprocess
+import json, os, re, subprocess, time
 import vlib
 
 REF = ["ref/ref_xz.c", "ref/ref_lzma.c", "ref/ref_check.c"]
@@ -16,9 +16,9 @@ def rows(exe):
     out = subprocess.run([exe, "list"], capture_output=True, text=True).stdout
     rs = []
     for l in out.splitlines():
-        m = re.match(r"ROW (\d+) tier=(\d+) threads=(\d+) (.*)", l)
+        m = re.match(r"ROW (\d+) tier=(\d+) threads=(\d+) bp=(\d+) (.*)", l)
         if m:
-            rs.append((int(m.group(1)), int(m.group(2)), int(m.group(3)), m.group(4)))
+            rs.append((int(m.group(1)), int(m.group(2)), int(m.group(3)), m.group(5), int(m.group(4))))
     return rs
 
 
@@ -48,7 +48,7 @@ def run(ck, tier, name, src, extra=()):
     budget = {"VERIF_HARNESS_BUDGET_S": str(max(20, ck.time_left() - 25))}
     # 1. ASan+UBSan, full bounds of the tier. Long rows are split over the level-1 frontier.
     args, labels = [], []
-    for (i, t, thr, nm) in sel:
+    for (i, t, thr, nm, rbp) in sel:
         nsh = 4 if tier == "thorough" else 2
         for s in range(nsh):
             args.append(["run", i, tier, s, nsh]); labels.append(f"row{nm}")
@@ -56,12 +56,13 @@ def run(ck, tier, name, src, extra=()):
     # 2. ThreadSanitizer under the same scheduler (preemption bound 1; thorough: the tier's bounds), race reports keyed by site pair
     e = {"TSAN_OPTIONS": "exitcode=0:halt_on_error=0:report_signal_unsafe=0:history_size=4:second_deadlock_stack=0", **budget}
     targs, tlabels = [], []
-    for (i, t, thr, nm) in sel:
+    for (i, t, thr, nm, rbp) in sel:
         # quick: preemption bound 1 for 2-thread rows (0 for 3 threads and for rows with timed waits, which get 1 expiry instead)
         timed = "to=1" in nm
         bp = 1 if (thr <= 2 and not timed) else 0
         if tier == "thorough":
             bp = 1
+        bp = min(bp, rbp)   # rows whose own bound is 0 (long multi-session scripts) stay at 0 here too
         targs.append(["run", i, tier, 0, 1, bp, 1 if timed else 0, 0])
         tlabels.append(f"tsan:row{nm}")
     # Each TSan process explores at most VS_MAX_EXEC executions, then writes its frontier to a file and a fresh process continues
@@ -73,13 +74,17 @@ def run(ck, tier, name, src, extra=()):
         cpus.put(c)
     fullenv = dict(os.environ); fullenv.update(vlib.SAN_ENV); fullenv.update(e)
 
+    durations = []
+
     def tsan_row(idx):
         cpu = cpus.get(); out = []
         try:
-            args = [str(a) for a in targs[idx]]; k = None; resume = None; seg = 0
+            args = [str(a) for a in targs[idx]]; k = None; resume = None; seg = 0; t0 = time.time()
             while True:
+                if ck.time_left() < 12:
+                    out.append(([tsan] + args, 0, "INCOMPLETE TSan pass of this row stopped at the deadline after %d segments\nDONE\n" % seg, "", False)); break
                 dump = os.path.join(tmpd, f"r{idx}-{seg}.frontier")
-                env2 = dict(fullenv, VS_MAX_EXEC="2000", VS_DUMP=dump)
+                env2 = dict(fullenv, VS_MAX_EXEC="2000", VS_DUMP=dump, VERIF_HARNESS_BUDGET_S=str(max(5, int(ck.time_left() - 10))))
                 if resume:
                     env2["VS_RESUME"] = resume; env2["VS_K"] = str(k)
                 elif k is not None:
@@ -96,6 +101,7 @@ def run(ck, tier, name, src, extra=()):
                 k = int(m.group(1)); resume = dump; seg += 1
         finally:
             cpus.put(cpu)
+        durations.append((time.time() - t0, tlabels[idx], seg + 1))
         return out
     try:
         with concurrent.futures.ThreadPoolExecutor(vlib.NCPU) as ex:
@@ -110,3 +116,5 @@ def run(ck, tier, name, src, extra=()):
                         json.dumps({"cmd": r[0], "report": txt}))
                 ck.add("tsan_reports")
     ck.add("tsan_rows", len(targs))
+    for d, lab, segs in sorted(durations, reverse=True)[:4]:
+        ck.notes.append(f"slowest TSan rows: {lab} {d:.0f}s in {segs} process segment(s)")
